@@ -1,6 +1,7 @@
 import Noodles.Basic.Wire
 import Noodles.Csi.Driver
 import Noodles.Bgzf.Driver
+import Noodles.Bgzf.DriverC02
 namespace Noodles
 open Noodles.Wire
 
@@ -8,6 +9,7 @@ def dispatch (line : String) : String :=
   match words line with
   | "c17" :: rest => Csi.handle rest
   | "c01" :: rest => Bgzf.handleC01 rest
+  | "c02" :: rest => Bgzf.RM.handleC02 rest
   | _ => "bad-suite"
 
 end Noodles
